@@ -106,19 +106,23 @@ def check_hex_variants(ctx, t, a, rng):
     m = Message(t, **a)
     ref = midi1.encode(t, a)
     case = lambda v: {'kind': 'hexvar', 'type': t, 'attrs': a, 'variant': v}  # noqa: E731
-    for sep in (' ', '', '-', ':', '::', ', '):
-        hx = m.hex(sep)
+    for sep in (' ', '', '-', ':', '::', ', ', ' 0x', 'x', 'ab', '\xa0', '|', '.'):
+        try:
+            hx = m.hex(sep)
+        except Exception as exc:
+            ctx.fail('hex(sep)', 'hex-raised:' + t, lambda: case(['hex', sep]), f'{type(exc).__name__}: {exc}')
+            continue
         ctx.check('hex(sep)', hx == sep.join('%02X' % x for x in ref), t,
                   lambda: case(['hex', sep]), lambda: hx[:80])
         try:
-            if sep in (' ', ''):
+            if sep in (' ', '', '\xa0'):
                 d = Message.from_hex(hx)
             else:
                 d = Message.from_hex(hx, sep=sep)
             ctx.check('from_hex(sep)', d == m, t, lambda: case(['from_hex', sep]),
                       lambda: repr(d)[:200])
             for tm in (7, 0.25):
-                kw = {} if sep in (' ', '') else {'sep': sep}
+                kw = {} if sep in (' ', '', '\xa0') else {'sep': sep}
                 d = Message.from_hex(hx, time=tm, **kw)
                 ctx.check('from_hex(sep, time)', _eq_typed(d, t, a, tm), 'from_hex-time:' + t,
                           lambda: case(['from_hex', sep, tm]), lambda: repr(d)[:200])
